@@ -143,7 +143,7 @@ namespace parmcb {
             // cleanup
             while (!forRemoval.empty()) {
                 Vertex u = forRemoval.front();
-                forRemoval.pop_front();
+                forRemoval.pop_back();                    // R13g positive
                 auto uindex = index_map[u];
                 exists[uindex] = false;
 
